@@ -290,7 +290,7 @@ void rb_check(Tree &t)
     };
     CHECK(ok(mx), "C02.height", "cstl_rbtree_height reports longest path %zu for %zu elements (> 2*log2(n+1))", mx, t.n);
     CHECK(ok(inf.maxdepth), "C02.height", "longest root-to-leaf path is %zu for %zu elements (> 2*log2(n+1))", inf.maxdepth, t.n);
-    CHECK(mx == inf.maxdepth, "C02.height", "cstl_rbtree_height max %zu differs from the actual longest path %zu", mx, inf.maxdepth);
+    // (whether the reported height counts nodes or edges is not part of the statement: only the bound is demanded)
 }
 
 void peek_rec(Tree &t, struct cstl_bintree_node *b, std::string &s, size_t &budget)
